@@ -34,7 +34,7 @@ const (
 
 type stats struct {
 	Files, Go, Recv, Send, Select, RangeChan, RangeMap, Sleep, AfterFunc, SyncImports, Touch int
-	Skipped                                                                         []string
+	Skipped                                                                                  []string
 }
 
 type rewriter struct {
@@ -46,13 +46,14 @@ type rewriter struct {
 	used  bool
 	noMap bool
 
-	skip      map[ast.Node]bool      // comm statements of selects: handled by the select rewrite
+	skip      map[ast.Node]bool // comm statements of selects: handled by the select rewrite
 	rangeChan map[*ast.RangeStmt]bool
 	rangeMap  map[*ast.RangeStmt]bool
 	constArg  map[ast.Expr]bool
 	timeSleep map[*ast.CallExpr]string
 	labeled   map[ast.Stmt]*ast.LabeledStmt
 	touch     map[*ast.AssignStmt]ast.Expr
+	ctxName   string // name of the context import if a context.AfterFunc call was rewritten (the import must stay used)
 }
 
 func (r *rewriter) site(n ast.Node) *ast.BasicLit {
@@ -137,6 +138,12 @@ func (r *rewriter) analyse() {
 						case "AfterFunc":
 							r.timeSleep[x] = "AfterFunc"
 						}
+					}
+					// context.AfterFunc starts its callback with a `go` of the standard library: several callbacks of one
+					// context would otherwise become tasks in the order the runtime happens to run them
+					if pn, ok := r.info.Uses[id].(*types.PkgName); ok && pn.Imported().Path() == "context" && se.Sel.Name == "AfterFunc" {
+						r.timeSleep[x] = "CtxAfterFunc"
+						r.ctxName = id.Name
 					}
 				}
 			}
@@ -362,7 +369,7 @@ func (r *rewriter) rewriteSelect(c *astutil.Cursor, s *ast.SelectStmt) {
 		var pre []ast.Stmt
 		switch st := cc.Comm.(type) {
 		case *ast.SendStmt:
-			inits = append(inits, r.call("SendCase", st.Chan, st.Value))
+			inits = append(inits, &ast.CallExpr{Fun: &ast.SelectorExpr{X: r.call("SendCaseOf", st.Chan), Sel: ast.NewIdent("With")}, Args: []ast.Expr{st.Value}})
 		case *ast.ExprStmt:
 			u, _ := isRecv(st.X)
 			inits = append(inits, r.call("RecvCase", u.X))
@@ -495,6 +502,10 @@ func (r *rewriter) run() ([]byte, error) {
 		}
 	}
 	astutil.Apply(r.file, nil, r.post)
+	if r.ctxName != "" {
+		r.file.Decls = append(r.file.Decls, &ast.GenDecl{Tok: token.VAR, Specs: []ast.Spec{&ast.ValueSpec{
+			Names: []*ast.Ident{ast.NewIdent("_")}, Values: []ast.Expr{&ast.SelectorExpr{X: ast.NewIdent(r.ctxName), Sel: ast.NewIdent("Background")}}}}})
+	}
 	if r.used {
 		imp := &ast.GenDecl{Tok: token.IMPORT, Specs: []ast.Spec{
 			&ast.ImportSpec{Name: ast.NewIdent(rtName), Path: &ast.BasicLit{Kind: token.STRING, Value: strconv.Quote(rtPath)}},
